@@ -725,11 +725,21 @@ impl Interface {
         if !self.inner.slaac.rs_required(self.inner.now) {
             return;
         }
+        // Without a link-local address there is nothing to solicit from.
+        let Some(src_addr) = self.inner.link_local_ipv6_address() else {
+            return;
+        };
         let rs_repr = Icmpv6Repr::Ndisc(NdiscRepr::RouterSolicit {
-            lladdr: Some(self.hardware_addr().into()),
+            // A medium without link-layer addresses has no source link-layer address option.
+            lladdr: match self.inner.caps.medium {
+                #[cfg(feature = "medium-ip")]
+                Medium::Ip => None,
+                #[allow(unreachable_patterns)]
+                _ => Some(self.inner.hardware_addr.into()),
+            },
         });
         let ipv6_repr = Ipv6Repr {
-            src_addr: self.inner.link_local_ipv6_address().unwrap(),
+            src_addr,
             dst_addr: IPV6_LINK_LOCAL_ALL_ROUTERS,
             next_header: IpProtocol::Icmpv6,
             payload_len: rs_repr.buffer_len(),
